@@ -275,7 +275,9 @@ where
             .map_err(|e| ("new", variant(&e)))?;
         let positions = coin.draw_integers(num_queries, s.domain(), nonce).map_err(|_| ("coin", "draw_integers".to_string()))?;
         if positions != out.positions {
-            return Err(("harness", "positions-differ".into()));
+            // the coin the verifier has advanced during the commit phase does not give the positions that
+            // follow from absorbing every commitment received, in order (the documented commit phase)
+            return Err(("transcript", "positions-differ".into()));
         }
         let claimed: Vec<E> = positions.iter().map(|&p| f[p]).collect();
         verifier.verify(&mut channel, &claimed, &positions).map_err(|e| ("verify", variant(&e)))
@@ -534,8 +536,11 @@ where
             }
         },
         Outcome::Rejected(stage, what) => {
-            if stage == "harness" {
-                return Err(Fail::new("harness/positions-differ", describe()));
+            if stage == "transcript" {
+                return Err(Fail::new(
+                    "transcript/positions-differ",
+                    format!("after FriVerifier::new the public coin does not give the positions that follow from absorbing every received commitment in order: {}", describe()),
+                ));
             }
             obs.label(format!("rejected:{stage}:{what}"));
             // (a proof with a duplicated trailing layer may be refused for its shape)
